@@ -9,7 +9,7 @@ DIRS = ['', 'lib', 'usr/lib64', 'plugins/a', 'plugins/b']
 ABIGNORE = b"[suppress_function]\n  name = function_that_does_not_exist_anywhere\n"
 
 
-def gen_workload(rng, big=False):
+def gen_workload(rng, big=False, devel=False):
     """A package pair as data: files = [{path, v1, v2}] where v1/v2 name a pool library or None."""
     nfiles = rng.range(1, 6) if not big else rng.range(6, 24)
     layout = rng.choice(['flat', 'mirrored', 'mirrored'])
@@ -46,7 +46,10 @@ def gen_workload(rng, big=False):
         opts.append('--no-added-binaries')
     if rng.chance(1, 4):
         opts.append('--redundant')
-    return {'files': files, 'format': fmt, 'abignore': abignore, 'options': opts}
+    wl = {'files': files, 'format': fmt, 'abignore': abignore, 'options': opts}
+    if devel and rng.chance(1, 3):
+        wl['devel'] = True      # --devel-pkg1/--devel-pkg2: private-type suppressions are built from the headers of the devel packages
+    return wl
 
 
 def materialise(wl, libs, root, order_rng=None):
@@ -78,11 +81,21 @@ def materialise(wl, libs, root, order_rng=None):
                 raise C.InfraError('tar failed: %s' % p.stdout[-300:])
             shutil.rmtree(d)
             out.append(tarp)
+    if wl.get('devel'):
+        for side in ('f', 's'):
+            d = os.path.join(root, 'pkg-%s1-devel' % side, 'usr', 'include')
+            os.makedirs(d)
+            for h in ('shapes.h', 'fnptr.h', 'geo.h'):
+                open(os.path.join(d, h), 'w').write('/* public header */\nstruct %s_public;\n' % h[:-2])
     return out[0], out[1]
 
 
 def spec(wl, p1, p2, simt, parallel=True, extra=None):
-    argv = ['abipkgdiff'] + list(wl['options']) + ([] if parallel else ['--no-parallel']) + list(extra or []) + [p1, p2]
+    devel = []
+    if wl.get('devel'):
+        root = os.path.dirname(p1)
+        devel = ['--devel-pkg1', os.path.join(root, 'pkg-f1-devel'), '--devel-pkg2', os.path.join(root, 'pkg-s1-devel')]
+    argv = ['abipkgdiff'] + list(wl['options']) + ([] if parallel else ['--no-parallel']) + devel + list(extra or []) + [p1, p2]
     s = {'argv': argv, 'cpu_limit_s': 120}
     if simt is not None:
         s['simt'] = simt
